@@ -21,6 +21,10 @@ class StepLimit(Exception):
     pass
 
 
+class LostControl(Exception):
+    """A controlled thread blocked outside the scheduler's control: a harness limitation, never a violation."""
+
+
 class SchedulerAbort(BaseException):
     """Raised inside controlled threads to unwind them when a run is abandoned."""
 
@@ -57,6 +61,7 @@ class Scheduler(object):
         self.preemptions = 0
         self.timer_firings = 0
         self.invariant = None    # callable(scheduler) run by the controller before every step
+        self.step_timeout = 30.0
 
     # ---- called inside controlled threads
     def me(self):
@@ -174,7 +179,10 @@ class Scheduler(object):
                 self.cur = name
                 st.status = 'running'
                 st.go.release()
-                self.back.acquire()
+                if not self.back.acquire(timeout=self.step_timeout):
+                    raise LostControl('thread %s did not reach a switch point within %s s (last point %r): it is '
+                                      'blocked on something the scheduler does not control' % (
+                                          name, self.step_timeout, st.point))
         except BaseException:
             self.abort()
             raise
